@@ -49,6 +49,9 @@ type breakerLog struct {
 	events []string
 }
 
+// lsnMask: which of OnClose / OnOpen / OnHalfOpen / OnStateChanged are registered (bits 0-3)
+var lsnMask = 15
+
 func buildBreaker(calls []BCallD, log *breakerLog) circuitbreaker.CircuitBreaker[int] {
 	b := circuitbreaker.Builder[int]()
 	for _, c := range calls {
@@ -89,7 +92,18 @@ func buildBreaker(calls []BCallD, log *breakerLog) circuitbreaker.CircuitBreaker
 					tag, int(e.OldState), int(e.NewState), m.Executions(), m.Failures(), m.FailureRate(), m.Successes(), m.SuccessRate()))
 			}
 		}
-		b = b.OnClose(rec(0)).OnOpen(rec(1)).OnHalfOpen(rec(2)).OnStateChanged(rec(3))
+		if lsnMask&1 != 0 {
+			b = b.OnClose(rec(0))
+		}
+		if lsnMask&2 != 0 {
+			b = b.OnOpen(rec(1))
+		}
+		if lsnMask&4 != 0 {
+			b = b.OnHalfOpen(rec(2))
+		}
+		if lsnMask&8 != 0 {
+			b = b.OnStateChanged(rec(3))
+		}
 	}
 	return b.Build()
 }
@@ -306,7 +320,14 @@ func TestDrive_C03(t *testing.T) {
 		n = 12000
 	}
 	add := func(calls []BCallD, hist []BOpD, tag string) {
+		// a third of the histories register only some of the four state-change listeners
+		lsnMask = 15
+		if tag != "corpus" && rng.Chance(33) {
+			lsnMask = rng.Intn(16)
+		}
+		mask := lsnMask
 		obs, start, changes := runBreakerHistory(t, calls, hist)
+		lsnMask = 15
 		cs := make([]string, len(calls))
 		for i, c := range calls {
 			cs[i] = c.Gallina()
@@ -321,8 +342,17 @@ func TestDrive_C03(t *testing.T) {
 		w.Stat("gen=" + tag)
 		cl, hl, ol := gList(cs), gList(hs), gList(obs)
 		w.Add(func(id int) string {
+			if mask != 15 {
+				var tags []string
+				for b := 0; b < 4; b++ {
+					if mask&(1<<b) != 0 {
+						tags = append(tags, fmt.Sprint(b))
+					}
+				}
+				return fmt.Sprintf("CaseHistL %d %s %s\n  %s\n  %s", id, gList(tags), cl, hl, ol)
+			}
 			return fmt.Sprintf("CaseHist %d %s\n  %s\n  %s", id, cl, hl, ol)
-		}, map[string]any{"builder_calls": strings.Join(cs, " "), "history_(unix_ns,op)": strings.Join(hs, "; "), "observed_after_each_op": strings.Join(obs, "; ")},
+		}, map[string]any{"registered_listeners(0=close,1=open,2=halfopen,3=generic)": mask, "builder_calls": strings.Join(cs, " "), "history_(unix_ns,op)": strings.Join(hs, "; "), "observed_after_each_op": strings.Join(obs, "; ")},
 			changes >= 2, cl+hl)
 	}
 	// corpus
